@@ -35,6 +35,7 @@ pub struct TrkCtx {
     pub next_tok: usize,
     /// per scene: canonical record stream (ids renamed by first appearance within the scene)
     pub log: HashMap<u64, Vec<String>>,
+    pub log_ids: HashMap<u64, Vec<String>>,
     pub rename: HashMap<u64, HashMap<u64, usize>>,
 }
 
@@ -90,6 +91,8 @@ fn log_records(c: &mut TrkCtx, scene: u64, recs: &[SortTrack]) {
     let ren = c.rename.entry(scene).or_default();
     let log = c.log.entry(scene).or_default();
     let mut line = String::new();
+    let ids_line: String = recs.iter().map(|r| format!("[{} e{} l{}]", r.id, r.epoch, r.length)).collect();
+    c.log_ids.entry(scene).or_default().push(ids_line);
     for r in recs {
         let n = ren.len();
         let o = *ren.entry(r.id).or_insert(n);
@@ -249,13 +252,29 @@ pub fn exec(ctx: &mut Ctx, t: &mut Toks) -> String {
         slots.cur = k;
         return "OK".into();
     }
-    if first == "cmp" {
+    if first == "sched" {
+        // `trk sched jitter <seed>` / `trk sched off`: seeded random delays of the store workers
+        let (m, _) = &*crate::sched::SCHED;
+        let mut st = m.lock().unwrap();
+        let kind = t.next();
+        let prev = (st.jitter_count, st.interleaved);
+        *st = crate::sched::State::default();
+        if kind == "jitter" {
+            st.active = true;
+            st.jitter = Some(t.u64());
+        }
+        return format!("OK {} {}", prev.0, prev.1);
+    }
+    if first == "cmp" || first == "cmpids" {
         let a = t.usize();
         let b = t.usize();
         let scene = t.u64();
-        let empty = Vec::new();
-        let la = slots.slots.get(a).and_then(|c| c.log.get(&scene)).unwrap_or(&empty);
-        let lb = slots.slots.get(b).and_then(|c| c.log.get(&scene)).unwrap_or(&empty);
+        let empty: Vec<String> = Vec::new();
+        let pick = |c: &TrkCtx| if first == "cmpids" { c.log_ids.get(&scene).cloned() } else { c.log.get(&scene).cloned() };
+        let la_v = slots.slots.get(a).and_then(pick).unwrap_or_default();
+        let lb_v = slots.slots.get(b).and_then(pick).unwrap_or_default();
+        let (la, lb) = (&la_v, &lb_v);
+        let _ = &empty;
         if la == lb {
             return format!("SAME {}", la.len());
         }
